@@ -118,4 +118,21 @@ def spec (ops : List Op) (outs : List ObsOut) (fin : Final) : Option String :=
     else if g.own.any (fun p => lookupP fin.blast p ≠ lookupP cur p) then some "replica-latest-per-key"
     else none
 
+/-! ### the model's own observation, in the observer's vocabulary (what the driver prints and the bridge theorem is about) -/
+
+def snapP (l : Snap) : PSnap := l.map (fun r => (r.fromO, r.toO))
+def storeP (s : Store) : PMap := sortByKey (s.map (fun kv => (kv.1, snapP kv.2)))
+
+def outObs : Out → ObsOut
+  | .bcast ok bs => .bc ok (sortByKey (bs.map (fun b => (b.1, snapP b.2))))
+  | .got r => .got (r.map (fun q => (q.fromO, q.toO)))
+  | .unit => .unit
+
+/-- the whole observation of a model run: per-op outputs, final state, and the two replicas (fed every broadcast / only the
+latest per key) -/
+def modelRun (ops : List Op) : List ObsOut × Final :=
+  let (s, outs) := run [] ops
+  let bs := allBcasts outs
+  (outs.map outObs, ⟨storeP s, storeP (recvAll [] bs), storeP (recvAll [] (latestPerKey bs))⟩)
+
 end Firebolt.Tracker
